@@ -49,6 +49,7 @@ T10 == { <<SDef("FNA", <<X>>, Bin("add", Bin("mul", X, LI(2)), Y))>>,
          \* (a later DEF replaces an earlier one altogether, parameter count included)
          <<SDef("FNA", <<X, Y>>, Bin("add", Bin("mul", X, LI(10)), Y))>>,
          <<SDef("FNA", <<X>>, Bin("add", FA(<<X>>), LI(1)))>>,       \* runaway recursion
+         <<SDef("FNA", <<X>>, FA(<<Bin("add", X, LI(1))>>))>>,         \* ... with the call as the last thing the body does
          <<SDef("FNB", <<P, Q>>, Bin("sub", FA(<<FA(<<P>>)>>), Q))>>,
          \* parameters in every argument position of nested calls, built-ins and subscripts
          <<SDef("FNC", <<P, Q>>, Bin("sub", FB(<<Q, P>>), LI(1))), PV(FnCall("FNC", <<LI(1), LI(4)>>))>>,
@@ -96,7 +97,10 @@ PL2(its1, its2) == { SPrint(<<PE(x[1])>> \o (IF x[3] = "" THEN <<>> ELSE <<PSep(
 T11a == { <<st>> : st \in PL1(Items) } \cup { <<SPrint(<<>>)>>, <<SPrint(<<PSep(",")>>)>>, <<STron>> }
 T11b == { <<st>> : st \in PL1(Items) \cup (IF Size > 1 THEN PL2(Items, SmallItems) ELSE PL2(SmallItems, SmallItems)) }
         \cup { <<SInput(TRUE, FALSE, <<>>, <<A>>), PV([k |-> "pos"])>>,
-               <<PV(Bin("idiv", LI(1), LI(0)))>> }
+               <<PV(Bin("idiv", LI(1), LI(0)))>>,
+               \* a keyboard poll prints nothing and moves nothing
+               <<SLet(AS, CallF("INKEY$", <<>>)), SPrint(<<PE(CallF("TAB", <<LI(5)>>)), PSep(";"), PE(Str(<<88>>)), PSep(";"), PE([k |-> "pos"])>>)>>,
+               <<SLet(AS, CallF("INKEY$", <<>>)), SPrint(<<PE(Str(<<89>>)), PSep(","), PE(Str(<<90>>))>>)>> }
 Tail11(k) == CASE k = 0 -> <<CDirect(<<SRun(-1)>>)>>
                [] k = 1 -> <<CDirect(<<PV([k |-> "pos"]), SPrint(<<PE(Str(<<68>>)), PSep(","), PE(LI(1))>>)>>)>>
                [] OTHER -> <<>>
